@@ -383,7 +383,8 @@ _EXTRA = {
     "C03": [(C.C_quaternion_layout, "C03 the result does not depend on the pose: roll sense and roll branch test"),
             (D2.D7_hint_table, "C03.1 hint resolution table: a given hint is used as given (0 included), one axis hint selects the atom farthest from it, the orientation atom is computed only when absent"),
             (C.C_axis_diag, "C03 the orthorhombic fast path is taken only for exactly diagonal cell matrices"),
-            (A2.A14b_fallback_axis, "C03 antiparallel poses: detection with tolerance, angle test without exact pi, non-degenerate fallback axis")],
+            (A2.A14b_fallback_axis, "C03 antiparallel poses: detection with tolerance, angle test without exact pi, non-degenerate fallback axis"),
+            (C.C_idx_find, "C03 a structure and its supercell give corresponding matches: image indices fold to unit-cell atoms consistently, the duplicate key keeps multiplicity")],
     "C04": [(D.D4_windows, "C04 every occurrence that is replaced must first be found: window bounds on all axes"),
             (C.C_axis_windows, "C04 triclinic windows: plane normals, widths, norms and inward signs are paired per axis"),
             (A2.A14b_fallback_axis, "C04 antiparallel poses are found: detection, angle test, non-degenerate fallback axis"),
